@@ -279,6 +279,11 @@ def main():
         cases.append((T, vals))
     for origin, specs, vals in random_cases(rng, 6000 if thorough else 500):
         cases.append((make_rule(origin, specs), vals))
+    # the strict rules of the MC_Constraints universe (model-checked, exported by TLC; harness/drivers/c03.py: universe)
+    from . import c03
+    uni = c03.universe(ck, strict_only=True)
+    cases += uni
+    ck.count("universe_cases_replayed_into_code", sum(len(v) for _, v in uni))
     records, n = [], 0
     for T, vals in cases:
         for x in vals:
